@@ -263,6 +263,18 @@ def run(ctx: Ctx):
                 and 0 < g.minLOSpathLen <= g.maxLOSpathLen):
             ctx.violation("RegionGeom.__init__", "los-range", "Lmin/Lmax are not the near-intersection / tangent lengths",
                           {"cfg": list(c), "Lmin": float(g.minLOSpathLen), "Lmax": float(g.maxLOSpathLen), "expected": [float(near), float(np.sqrt((D-R)*(D+R)))]})
+    # ---- optional plots are inert: the tuple __call__ returns (angles, nadir angles, path lengths; row i = trajectory i) and
+    # the positions along the trajectories are the same whether or not the geometry plot is requested
+    import plotinert
+    for c in cfgs[:3]:
+        u_p = rng.random((4, 64))
+
+        def call(plot, c=c, u_p=u_p):
+            g_ = make_geom(*c)
+            r = g_(u_p.copy()) if plot is None else g_(u_p.copy(), plot=plot)
+            lat, lon = g_.find_lat_long_along_traj(np.full(len(r[0]), 5.0))
+            return (*r, np.asarray(lat), np.asarray(lon), np.asarray(g_.event_mask))
+        plotinert.check(ctx, "RegionGeom.__call__", call, {"cfg": list(c), "events": 64}, spellings=("list", "name"))
     # ---- structured stream
     nev = 400 if ctx.thorough else 120
     for c in cfgs:
